@@ -64,7 +64,7 @@ pub fn list_files(dir: &str, suffix: &str) -> Vec<String> {
     v
 }
 
-pub fn plan_jobs(corpus_dir: &str, thorough: bool, seed: u64) -> Vec<Value> {
+pub fn plan_jobs(corpus_dir: &str, jobs_dir: &str, thorough: bool, seed: u64) -> Vec<Value> {
     let tier = if thorough { "thorough" } else { "quick" };
     let mut jobs = vec![];
     if let Ok(dir) = std::env::var("H14_WITNESSES") {
@@ -80,6 +80,8 @@ pub fn plan_jobs(corpus_dir: &str, thorough: bool, seed: u64) -> Vec<Value> {
         .into_iter()
         .filter(|f| !f.ends_with(".compiled_contract_class.json"))
         .collect::<Vec<_>>();
+    // boundary templates first: the count templates are the longest single items
+    jobs.extend(crate::templates::plan(corpus_dir, jobs_dir, thorough, seed));
     for c in &classes {
         jobs.push(json!({"kind": "cls", "src": c, "tier": tier, "seed": seed}));
     }
@@ -88,6 +90,7 @@ pub fn plan_jobs(corpus_dir: &str, thorough: bool, seed: u64) -> Vec<Value> {
     }
     for c in &classes {
         jobs.push(json!({"kind": "fel", "src": c, "tier": tier, "seed": seed}));
+        jobs.push(json!({"kind": "jsn", "src": c, "tier": tier, "seed": seed}));
     }
     for (_, f) in &files {
         jobs.push(json!({"kind": "fel", "src": f, "tier": tier, "seed": seed}));
@@ -106,6 +109,8 @@ pub fn run_job(job: &Value) {
         "fel" => felts::run_fel_job(job),
         "rnd" => felts::run_rnd_job(job),
         "wit" => run_wit_job(job),
+        "tpl" => crate::templates::run_tpl_job(job),
+        "jsn" => classes::run_jsn_job(job),
         _ => {}
     }
 }
@@ -377,6 +382,11 @@ pub fn run_witness(f: &Value) -> Option<(String, Vec<Panic>)> {
             let d = o.stages.iter().map(|(s, st, d)| format!("{}:{} {}", s.name(), st, d)).collect::<Vec<_>>().join(" | ");
             Some((d, panics))
         }
+        Some("program-class") => {
+            let p = serde_json::from_value::<Program>(f["program_json"].clone()).ok()?;
+            Some(crate::templates::class_path(&p))
+        }
+        Some("class-json") => classes::run_json_witness(f),
         Some("felts") => felts::run_witness(f),
         Some("class") => classes::run_witness(f),
         _ => None,
